@@ -7,14 +7,28 @@
    drops the client side and keeps the three table operations — the very functions [step] uses for
    LMbox and LEmitSnap/LEmitSend: [same_user], [is_user], [find_idx], [swap_remove] — with any ids.
    Operations run one at a time (each call is answered before the next one is sent; an emission
-   is complete before the next operation).  Executable; proofs in SignalsRawProofs.v. *)
+   is complete before the next operation).  Executable; proofs in SignalsRawProofs.v.
+
+   Round 5: connections in bad health.  [RBreak c k] changes what happens when the object writes to
+   connection c from then on; the server side of the connection keeps reading, so nothing tells the
+   object that its registrations are worthless (the endpoint only gives a connection up when READING
+   fails).  UpdateSignal's loop over its snapshot is modelled entry by entry ([emit_go]): a healthy
+   connection is written to; a write that fails with anything but io.EOF is skipped (the error is
+   remembered, the loop goes on; a transient failure lasts for the Event writes of one emission); a write that fails with io.EOF makes UpdateSignal call
+   removeSignalUser(user id, connection) at once — the table changes in the middle of the loop, the
+   snapshot does not. *)
 From QV Require Import Signals.
 Local Open Scope N_scope.
 
 Inductive rop :=
 | RReg (c : nat) (m sig uid : N)   (* call m of connection c: registerEvent(object, sig, uid) *)
 | RUnreg (c : nat) (sig uid : N)   (* unregisterEvent(object, sig, uid) on connection c *)
-| REmit (sig p : N).               (* UpdateSignal(sig, p) *)
+| REmit (sig p : N)                (* UpdateSignal(sig, p) *)
+| RBreak (c : nat) (k : N).        (* from now on, writes of the object to connection c: 0 fail (EPIPE, reset, down
+                                      direction closed: any error but io.EOF); 1 fail with io.EOF; 2 the whole
+                                      connection is closed (writes fail; the closers of its handlers forget its
+                                      registrations concurrently, in any order); 3 the Event writes of the next emission
+                                      that reaches c fail (not io.EOF), later ones succeed; 4 writes are slow (they block for a while) *)
 
 Inductive robs :=
 | OAck                             (* Reply *)
@@ -22,9 +36,60 @@ Inductive robs :=
 | ONoAnswer                        (* the object's mailbox goroutine is blocked for ever *)
 | OSent (l : list (nat * N)).      (* the Event frames of the emission in the order written: connection, message id *)
 
-Record rstate := { r_table : list user; r_dead : bool }.
-Definition rinit : rstate := {| r_table := []; r_dead := false |}.
+Record rstate := {
+  r_table : list user;
+  r_dead : bool;
+  r_bad : list (nat * N);   (* connections every write to which fails: 1 = with io.EOF, anything else = another error *)
+  r_once : list nat;        (* connections with a transient failure to come (one entry per emission that will fail) *)
+  r_fuzzy : bool }.         (* a connection was closed: its entries leave the table by swap-removes of concurrent
+                               closers, so the ORDER of the table (not its content for healthy connections) is open *)
+Definition rof (t : list user) : rstate := {| r_table := t; r_dead := false; r_bad := []; r_once := []; r_fuzzy := false |}.
+Definition rinit : rstate := rof [].
+Definition with_table (st : rstate) (t : list user) (d : bool) : rstate :=
+  {| r_table := t; r_dead := d; r_bad := r_bad st; r_once := r_once st; r_fuzzy := r_fuzzy st |}.
 
+Fixpoint bad_of (l : list (nat * N)) (c : nat) : option N :=
+  match l with
+  | [] => None
+  | (c', k) :: r => if Nat.eqb c' c then Some k else bad_of r c
+  end.
+Fixpoint del1 (c : nat) (l : list nat) : list nat :=
+  match l with
+  | [] => []
+  | x :: r => if Nat.eqb x c then r else x :: del1 c r
+  end.
+(* removeSignalUser(uid, connection) as UpdateSignal calls it after io.EOF: first entry of that id on that
+   connection, swap with the last, truncate; an unknown id is an error that only the caller of UpdateSignal sees *)
+Definition drop_user (t : list user) (c : nat) (uid : N) : list user :=
+  match find_idx (is_user c uid) t with
+  | Some i => swap_remove t i
+  | None => t
+  end.
+(* the delivery loop of UpdateSignal over its snapshot: table afterwards, frames written.  A transient failure
+   lasts for one emission: every Event write of that emission to the connection fails (so that what is sent
+   does not depend on the order of the table), later emissions reach it again. *)
+Fixpoint emit_go (snap t : list user) (bad : list (nat * N)) (once : list nat) : list user * list (nat * N) :=
+  match snap with
+  | [] => (t, [])
+  | u :: r =>
+      match bad_of bad (u_conn u) with
+      | Some k => if k =? 1 then emit_go r (drop_user t (u_conn u) (u_uid u)) bad once
+                  else emit_go r t bad once
+      | None => if existsb (Nat.eqb (u_conn u)) once then emit_go r t bad once
+                else let '(t', l) := emit_go r t bad once in (t', (u_conn u, u_mid u) :: l)
+      end
+  end.
+(* the pending transient failures after the emission: one less for every connection the emission tried to write to *)
+Fixpoint once_after (snap : list user) (bad : list (nat * N)) (hit once : list nat) : list nat :=
+  match snap with
+  | [] => once
+  | u :: r =>
+      match bad_of bad (u_conn u) with
+      | Some _ => once_after r bad hit once
+      | None => if existsb (Nat.eqb (u_conn u)) hit then once_after r bad hit once
+                else once_after r bad (u_conn u :: hit) (del1 (u_conn u) once)
+      end
+  end.
 Definition targets (sig : N) (t : list user) : list (nat * N) :=
   map (fun u => (u_conn u, u_mid u)) (filter (fun u => u_sig u =? sig) t).
 
@@ -33,19 +98,27 @@ Definition raw_step (g : scfg) (st : rstate) (o : rop) : rstate * robs :=
   | RReg c m sig uid =>
       if r_dead st then (st, ONoAnswer) else
       match find_idx (same_user g c uid) (r_table st) with
-      | None => ({| r_table := r_table st ++ [{| u_uid := uid; u_sig := sig; u_mid := m; u_conn := c |}];
-                    r_dead := false |}, OAck)
+      | None => (with_table st (r_table st ++ [{| u_uid := uid; u_sig := sig; u_mid := m; u_conn := c |}]) false, OAck)
       | Some i => if dup_relock g
-                  then ({| r_table := swap_remove (r_table st) i; r_dead := true |}, ONoAnswer)
+                  then (with_table st (swap_remove (r_table st) i) true, ONoAnswer)
                   else (st, ORefused)
       end
   | RUnreg c sig uid =>
       if r_dead st then (st, ONoAnswer) else
       match find_idx (is_user c uid) (r_table st) with
-      | Some i => ({| r_table := swap_remove (r_table st) i; r_dead := false |}, OAck)
+      | Some i => (with_table st (swap_remove (r_table st) i) false, OAck)
       | None => (st, ORefused)
       end
-  | REmit sig p => (st, OSent (targets sig (r_table st)))
+  | REmit sig p =>
+      let snap := filter (fun u => u_sig u =? sig) (r_table st) in
+      let '(t', l) := emit_go snap (r_table st) (r_bad st) (r_once st) in
+      ({| r_table := t'; r_dead := r_dead st; r_bad := r_bad st; r_once := once_after snap (r_bad st) [] (r_once st);
+          r_fuzzy := r_fuzzy st |}, OSent l)
+  | RBreak c k =>
+      ({| r_table := r_table st; r_dead := r_dead st;
+          r_bad := if (k =? 0) || (k =? 1) || (k =? 2) then (c, k) :: r_bad st else r_bad st;
+          r_once := if k =? 3 then c :: r_once st else r_once st;
+          r_fuzzy := r_fuzzy st || (k =? 2) |}, OAck)
   end.
 
 Definition raw_run (g : scfg) (st : rstate) (os : list rop) : rstate :=
@@ -59,8 +132,24 @@ Definition eqb_obs (a b : robs) : bool :=
   | OSent x, OSent y => Nat.eqb (List.length x) (List.length y) && forallb (fun p => eqb_pair (fst p) (snd p)) (combine x y)
   | _, _ => false
   end.
+(* the same frames in any order (after a connection was closed) *)
+Fixpoint del_pair (a : nat * N) (l : list (nat * N)) : option (list (nat * N)) :=
+  match l with
+  | [] => None
+  | b :: r => if eqb_pair a b then Some r else option_map (cons b) (del_pair a r)
+  end.
+Fixpoint perm_eqb (x y : list (nat * N)) : bool :=
+  match x with
+  | [] => match y with [] => true | _ => false end
+  | a :: r => match del_pair a y with Some y' => perm_eqb r y' | None => false end
+  end.
+Definition obs_ok (fuzzy : bool) (want seen : robs) : bool :=
+  match want, seen with
+  | OSent x, OSent y => if fuzzy then perm_eqb x y else eqb_obs want seen
+  | _, _ => eqb_obs want seen
+  end.
 Fixpoint raw_agrees (g : scfg) (st : rstate) (l : list (rop * robs)) : bool :=
   match l with
   | [] => true
-  | (o, seen) :: r => let '(st', want) := raw_step g st o in eqb_obs want seen && raw_agrees g st' r
+  | (o, seen) :: r => let '(st', want) := raw_step g st o in obs_ok (r_fuzzy st') want seen && raw_agrees g st' r
   end.
